@@ -82,6 +82,9 @@ func determinismCmd(args []string) int {
 	defer w.Flush()
 	cfgOf := map[string]drv.Cfg{"default": {}, "fs": {FieldSensitive: true}, "od": {OnDemand: true}, "esc": {Escape: true},
 		"fs+od": {FieldSensitive: true, OnDemand: true}, "ma1": {MaxAlarms: 1}, "ma2": {MaxAlarms: 2}}
+	for d := 6; d <= 20; d++ {
+		cfgOf[fmt.Sprintf("md%d", d)] = drv.Cfg{Extra: fmt.Sprintf("  unsafe-max-depth: %d\n", d)}
+	}
 	sc := bufio.NewScanner(f)
 	sc.Buffer(make([]byte, 1<<20), 1<<24)
 	idx := -1
@@ -97,6 +100,9 @@ func determinismCmd(args []string) int {
 		}
 		for _, cname := range strings.Split(*cfgs, ",") {
 			cfg := cfgOf[cname]
+			if strings.HasPrefix(cname, "md") && !strings.Contains(sub.Sig, "[det.") {
+				continue // depth-bound configurations only for the subjects built for them
+			}
 			fmt.Fprintf(os.Stderr, "BEGIN %d %s %s\n", idx, sub.Sig, cname)
 			rec := detRec{Sig: sub.Sig, Atoms: sub.Atoms, Cfg: cname}
 			var result string
